@@ -1830,6 +1830,10 @@ export class AnyOfDiscriminatedRuntype extends BaseRuntype {
     this.ensureContextualDefinition(syntheticRefName, runtype, ctx);
     return printingContext.getRef(syntheticRefName);
   }
+  // own-property lookup: a discriminator value such as "constructor" or "toString" must not reach Object.prototype
+  private variantFor(d: any): Runtype | undefined {
+    return Object.prototype.hasOwnProperty.call(this.mapping, d) ? this.mapping[d] : undefined;
+  }
   validate(ctx: ValidateContext, input: unknown): boolean {
     if (typeof input !== "object" || input == null) {
       return false;
@@ -1838,7 +1842,7 @@ export class AnyOfDiscriminatedRuntype extends BaseRuntype {
     if (d == null) {
       return false;
     }
-    const v = this.mapping[d];
+    const v = this.variantFor(d);
     if (v == null) {
       return false;
     }
@@ -1846,7 +1850,7 @@ export class AnyOfDiscriminatedRuntype extends BaseRuntype {
     return v.validate(ctx, input);
   }
   parseAfterValidation(ctx: ParseContext, input: any): unknown {
-    const parser = this.mapping[input[this.discriminator]];
+    const parser = this.variantFor(input[this.discriminator]);
     if (parser == null) {
       throw new Error(
         "INTERNAL ERROR: Missing parser for discriminator " + JSON.stringify(input[this.discriminator]),
@@ -1866,7 +1870,7 @@ export class AnyOfDiscriminatedRuntype extends BaseRuntype {
     if (d == null) {
       return buildError(ctx, "expected discriminator key " + JSON.stringify(this.discriminator), input);
     }
-    const v = this.mapping[d];
+    const v = this.variantFor(d);
     if (v == null) {
       pushPath(ctx, this.discriminator);
       const errs = buildError(
